@@ -10,6 +10,10 @@ get dynamic partial coloring (`colored`, judged against an uncolored twin proble
     round-off;  cs: 1e-11 relative
   * the perturbations the component really receives (hook on compute/apply_nonlinear)  vs  documented step
   * colored  vs  uncolored approximation
+  * histories (`hist-colored`, `hist-total`): the same colored component / approx_totals model with a driver total
+    coloring approximated at successive points of very different magnitude (1e3 -> 1 -> 1e-3, zeros, sign flips),
+    with check_partials / check_totals using other options in between: step data that depends on the point
+    (relative step_calc) must follow the point, options of a check must not survive it
   * bitwise snapshots of the root inputs/outputs/residuals vectors around every approximation call.
 """
 import copy
@@ -29,7 +33,13 @@ TECHNIQUE = ('runtime monitoring: approximated jacobians vs exact derivatives of
 RULE = ('random model specs (harness components c + A x + B sin x, explicit and implicit, nested groups, units, index '
         'chains) x scenario {partials at two points, colored partials + uncolored twin, semi-total approx_totals on a '
         'sub-group, total approx_totals} x method/form/step/step_calc/minimum_step grid x points with zero and large '
-        'entries; distinct = (scenario, option cells, component kinds, solver stack); non-trivial = at least one '
+        'entries; plus HISTORIES: the same colored component (declare_coloring, options kept from declare_partials, '
+        'mostly relative step_calc, half of them with ONE colored wrt variable) / the same approx_totals model with a '
+        'total coloring declared on the driver (computed by Problem.get_total_coloring as the optimizers do) is '
+        'approximated at 3-4 successive points of kind large (1e2..2e3) / unit / small (1e-4..1e-2) / mixed (zeros, '
+        'large and small entries) / negated / same, with check_partials / check_totals calls using other fd options '
+        'in between, each next to an uncolored twin; '
+        'distinct = (scenario, option cells, component kinds, solver stack, point kinds); non-trivial = at least one '
         'approximated block with a nonlinear (B != 0) term was judged and all solvers reported convergence')
 MIN_JUDGED = {'quick': 200, 'thorough': 5000}
 REQUIRED_COUNTERS = (
@@ -41,7 +51,14 @@ REQUIRED_COUNTERS = (
      'obs:restore-around-compute_totals', 'obs:group-approx-over-iterative-solver',
      'obs:group-approx-with-implicit-component', 'obs:model-totals-through-approx-group',
      'obs:bitwise-inputs', 'obs:bitwise-outputs', 'obs:bitwise-residuals', 'obs:step-observations',
-     'obs:implicit-state-block', 'obs:point-2'])
+     'obs:implicit-state-block', 'obs:point-2',
+     # histories at points of very different magnitude (cached approximation data must follow the point)
+     'obs:hist-colored-later-point', 'obs:hist-colored-rel-step-at-point-of-other-magnitude',
+     'obs:hist-colored-rel-step-single-wrt', 'obs:hist-check_partials-between-linearizations',
+     'cell:hist:large', 'cell:hist:unit', 'cell:hist:small', 'cell:hist:mixed', 'cell:hist:negated', 'cell:hist:same',
+     'obs:total-colored-fewer-evaluations', 'obs:total-colored-vs-uncolored', 'obs:hist-total-colored-later-point',
+     'obs:hist-total-colored-rel-step-at-point-of-other-magnitude', 'obs:hist-check_totals-between-gradients',
+     'obs:restore-around-colored-total-approx', 'cell:total-colored:api/driver', 'cell:total-colored:api/problem'])
 SHARD_TIMEOUT = {'quick': 1200, 'thorough': 5400}
 ASSUMPTIONS = ['harness component functions are complex-safe and evaluated with round-off bounded by '
                '(nterms+8) eps sum|terms| (bound recomputed per case)',
@@ -50,26 +67,41 @@ ASSUMPTIONS = ['harness component functions are complex-safe and evaluated with 
                'solvers / cyclic groups is not value-judged (documented caveat), only its state restoration is',
                'no MPI / parallel FD; directional approximations (check_partials / check_totals directional=True) '
                'are left to C13 (they raise on the generated models before any state comparison is possible)',
+               'histories: every point is judged with the step the documentation promises for the values at THAT '
+               'point; a colored step that differs from it is attributed to the known single-wrt mechanism only if '
+               'it equals the documented step of one wrt variable/element at the current point (steps of earlier '
+               'points are a different mechanism: colored-rel-step-from-earlier-point); check_partials/check_totals '
+               're-evaluate residuals, so only inputs and outputs are compared bitwise around them; semi-total '
+               'coloring is not generated (setup rejects it); total-coloring histories use |x| <= 2e3 and relative '
+               'steps <= 1e-6 so that h <= ~5e-3',
                'approximated (semi-)totals: 2nd/3rd derivative bounds of the implicit function are evaluated at the '
                'point (10% slack for the variation over the step); steps <= 1e-3']
 
 MECHANISMS = ('rel-step-frozen-at-first-linearization', 'mixed-wrt-options', 'colored-rel-step-from-single-wrt',
+              'colored-rel-step-from-earlier-point', 'colored-total-drops-approx_totals-options',
+              'colored-beside-other-method',
               'colored-cs-sparsity-by-fd-with-cs-step', 'approx-group-with-implicit-comp',
               'approx-group-block-reuses-component-subjac', 'approx-group-under-assembled-jacobian',
               'approx-group-with-matrix-free-comp', 'approx-group-with-own-gradient-solver')
 SCENARIOS = ['partials', 'partials', 'partials', 'colored', 'colored', 'semitotal', 'semitotal', 'total']
+HIST_SCENARIOS = ['hist-colored', 'hist-colored', 'hist-total']
 
 
 def shards(tier, seed):
     n = 16 if tier == 'quick' else 64
     per = 24 if tier == 'quick' else 120
-    return [{'seed': seed * 1000000 + i * 10000, 'n': per, 'tier': tier} for i in range(n)]
+    nh = 8 if tier == 'quick' else 40       # histories (points of very different magnitude) per shard
+    return [{'seed': seed * 1000000 + i * 10000, 'n': per, 'nh': nh, 'tier': tier} for i in range(n)]
 
 
 def run_shard(shard, acc):
     for k in range(shard['n']):
         s = shard['seed'] + k
         run_case({'seed': s, 'scenario': SCENARIOS[s % len(SCENARIOS)], 'tier': shard.get('tier', 'quick')}, acc)
+    for k in range(shard.get('nh', 0)):
+        s = shard['seed'] + 5000 + k
+        run_case({'seed': s, 'scenario': HIST_SCENARIOS[s % len(HIST_SCENARIOS)],
+                  'tier': shard.get('tier', 'quick')}, acc)
 
 
 class HarnessSkip(Exception):
@@ -184,6 +216,55 @@ def _points(spec, rng, second=False):
     return out
 
 
+HIST_KINDS = ('large', 'unit', 'small', 'mixed')
+
+
+def _hist_points(spec, rng, npts, max_exp=3.3):
+    """A history of points of very different magnitude for the independent variables.
+    -> (list of {name: flat list}, list of kinds).  Successive points differ in kind, except for 'negated' (the
+    previous point with all signs flipped: relative steps must not change) and 'same' (legitimate cache reuse)."""
+    names = []
+    for c in spec['comps']:
+        if c['kind'] == 'ivc':
+            names += [(oo['name'], int(np.prod(oo['shape']))) for oo in c['outputs']]
+    names += [(p['name'], int(np.prod(p['shape']))) for p in spec['params']]
+    pts, kinds = [], []
+    for t in range(npts):
+        r = rng.random()
+        if t > 0 and r < 0.12:
+            kinds.append('negated')
+            pts.append({k: (-np.asarray(v)).tolist() for k, v in pts[-1].items()})
+            continue
+        if t > 0 and r < 0.2:
+            kinds.append('same')
+            pts.append({k: list(v) for k, v in pts[-1].items()})
+            continue
+        prev = [k for k in kinds if k in HIST_KINDS][-1:] or [None]
+        kind = rng.choice([k for k in HIST_KINDS if k != prev[0]])
+        pt = {}
+        for nm, n in names:
+            base = np.array([round(rng.choice([-1, 1]) * rng.uniform(0.3, 2.0), 3) for _ in range(n)])
+            if kind == 'large':
+                base = np.round(base * 10 ** rng.uniform(2.0, max_exp), 2)
+            elif kind == 'small':
+                base = base * 10 ** -rng.uniform(2.0, 4.0)
+            elif kind == 'mixed':
+                for j in range(n):
+                    q = rng.random()
+                    if q < 0.3:
+                        base[j] = 0.0
+                    elif q < 0.55:
+                        base[j] = round(base[j] * 10 ** rng.uniform(2.0, max_exp), 2)
+                    elif q < 0.75:
+                        base[j] = base[j] * 10 ** -rng.uniform(2.0, 4.0)
+            if rng.random() < 0.08:
+                base = np.zeros(n)          # (relative steps fall back to minimum_step)
+            pt[nm] = base.tolist()
+        kinds.append(kind)
+        pts.append(pt)
+    return pts, kinds
+
+
 def _apply_points(spec, pts):
     for c in spec['comps']:
         if c['kind'] == 'ivc':
@@ -231,6 +312,8 @@ def _wrt_opts(c):
             res[k] = o
     for o_, o in cfg.get('self', {}).items():
         res[o_] = o
+    for key, o in cfg.get('xblocks', {}).items():
+        res.setdefault(key.split('|')[1], o)
     return res
 
 
@@ -253,7 +336,33 @@ def _norm_opts(kit, o):
             kit.DEFAULT_MIN_STEP if ms is None else ms)
 
 
-def _judge_comp(kit, c, comp, st, events, frozen_x, out, colored=False, jac_src=None, tag=''):
+def _sparsity_lost(comp, c):
+    """white box (classification only): the dynamic coloring of the component was computed from a sparsity with
+    fewer nonzeros than the structural pattern of the colored blocks (entries outside it are never written)."""
+    col = getattr(comp._coloring_info, 'coloring', None)
+    if col is None:
+        return False
+    cfg = c['c12']
+    exp = 0
+    for key in cfg.get('blocks', {}):
+        o_, k = key.split('|')
+        t = c['terms'][o_]
+        P = None
+        for d in (t['A'], t['B']):
+            if k in d:
+                nz = np.asarray(d[k], dtype=float) != 0
+                P = nz if P is None else (P | nz)
+        exp += int(P.sum()) if P is not None else 0
+    for o_ in cfg.get('self', {}):
+        exp += len(c['terms'][o_]['c'])
+    try:
+        return len(col._nzrows) < exp
+    except Exception:
+        return False
+
+
+def _judge_comp(kit, c, comp, st, events, frozen_x, out, colored=False, jac_src=None, tag='', earlier=None,
+                diag=None):
     """Judge all approximated blocks of one component.  st = (x, y, r) before the approximation.
     out: list collecting (keypart, observable, message).  A diagnosed mechanism is only named when it is
     confirmed by observation: the perturbations the component really received (hook) or, for mixed declarations,
@@ -271,17 +380,17 @@ def _judge_comp(kit, c, comp, st, events, frozen_x, out, colored=False, jac_src=
         E[o] = ev[o]['E']
     wopts = _wrt_opts(c)
     ncells = []
-    cand = []     # colored approximations: steps that a single wrt variable / element would give
+    cand = []     # colored approximations: steps that a single wrt variable / element would give AT THIS POINT
+    cand_old = []  # ... and the steps the wrt variables had at EARLIER linearization points (a stale cache)
     if colored:
         o = ([o_ for o_ in wopts.values() if o_] or [None])[0]
         for var in list(x) + list(y):       # declare_coloring declares every (of, wrt) pair of the component
             if o and o['method'] == 'fd' and (o.get('step_calc') or 'abs') != 'abs':
-                vals = [y[var] if var in y else x[var]]
-                if frozen_x is not None:
-                    vals.append(frozen_x[1][var] if var in y else frozen_x[0][var])
-                for v in vals:
-                    cand += list(kit.doc_step(o, v))
+                cand += list(kit.doc_step(o, y[var] if var in y else x[var]))
+                for xe, ye in (earlier or []):
+                    cand_old += list(kit.doc_step(o, ye[var] if var in ye else xe[var]))
         cand = sorted(set(float(h) for h in cand))
+        cand_old = sorted(set(float(h) for h in cand_old) - set(cand))
     # ---- observed perturbations ----------------------------------------------------------------------------
     nobs = 0
     base = dict(x)
@@ -321,6 +430,10 @@ def _judge_comp(kit, c, comp, st, events, frozen_x, out, colored=False, jac_src=
                     if colored and any(abs(diff[j] - e) <= 2.0 * kit.EPS * (abs(base[var][j]) + hc)
                                        for hc in cand for e in kit.expected_deltas(opts, hc)):
                         why = 'colored-rel-step-from-single-wrt'
+                    if not why and colored and any(abs(diff[j] - e) <= 2.0 * kit.EPS * (abs(base[var][j]) + hc)
+                                                   for hc in cand_old for e in kit.expected_deltas(opts, hc)):
+                        # the step belongs to the values the wrt variables had at an earlier linearization
+                        why = 'colored-rel-step-from-earlier-point'
                     if not why and frozen_x is not None and (opts.get('step_calc') or 'abs') != 'abs':
                         xf = frozen_x[1][var] if var in y else frozen_x[0][var]
                         hf = kit.doc_step(opts, xf)[j]
@@ -337,6 +450,7 @@ def _judge_comp(kit, c, comp, st, events, frozen_x, out, colored=False, jac_src=
     # ---- values ---------------------------------------------------------------------------------------------
     blocks = [(key.split('|')[0], key.split('|')[1], o) for key, o in cfg.get('blocks', {}).items()]
     blocks += [(o_, o_, o) for o_, o in cfg.get('self', {}).items()]
+    blocks += [(key.split('|')[0], key.split('|')[1], o) for key, o in cfg.get('xblocks', {}).items()]
     for o_, k, opts in blocks:
         is_self = (k == o_)
         xk = y[o_] if is_self else x[k]
@@ -369,10 +483,21 @@ def _judge_comp(kit, c, comp, st, events, frozen_x, out, colored=False, jac_src=
             # iterative solver leaves it at its tolerance); one-sided forms use the stored residual as f(x)
             bound, T, R = kit.fd_bound(form, h, M, D, xk, E[o_], stale[o_])
         err = np.abs(J - D)
+        if diag is not None:
+            # structural nonzeros that an approximation at this point cannot tell from zero (|D| within 10 bounds)
+            if is_self:
+                P = np.eye(xk.size, dtype=bool)
+            else:
+                P = np.zeros(D.shape, dtype=bool)
+                for d_ in (c['terms'][o_]['A'], c['terms'][o_]['B']):
+                    if k in d_:
+                        P |= np.asarray(d_[k], dtype=float) != 0
+            if np.any(P & ~(np.abs(D) > 10.0 * bound)):
+                diag['weak'] = True
         if not np.all(np.isfinite(J)) or np.any(err > bound):
             i, j = np.unravel_index(np.argmax(np.where(np.isfinite(err), err / bound, np.inf)), err.shape)
             why = ''
-            if colored and form == 'cs' and opts.get('step') and J[i, j] == 0.0:
+            if colored and form == 'cs' and opts.get('step') and (J[i, j] == 0.0 or _sparsity_lost(comp, c)):
                 why = 'colored-cs-sparsity-by-fd-with-cs-step'
             if not why and form != 'cs' and confirmed.get(k) and k in obs_h:
                 # explained by the steps that were REALLY applied to this variable (observed by the hook)?
@@ -400,7 +525,7 @@ def _judge_comp(kit, c, comp, st, events, frozen_x, out, colored=False, jac_src=
         return ncells, nobs, len(merged)
     # blocks that stay analytic must hold the exact value although approximated columns were written over them
     for key, stl in c['styles'].items():
-        if key in cfg.get('blocks', {}) or stl in ('matfree',):
+        if key in cfg.get('blocks', {}) or key in cfg.get('xblocks', {}) or stl in ('matfree',):
             continue
         o_, k = key.split('|')
         D, _ = kit.block_exact(c, o_, k, x[k])
@@ -475,7 +600,7 @@ def _sparsify(c, rng):
                     d[k] = a.tolist()
 
 
-def _decorate_colored(kit, spec, rng):
+def _decorate_colored(kit, spec, rng, hist=False):
     cands = [c for c in spec['comps'] if c['kind'] != 'ivc' and not c.get('matfree')]
     rng.shuffle(cands)
     chosen = cands[:rng.randint(1, min(2, len(cands)))]
@@ -484,16 +609,35 @@ def _decorate_colored(kit, spec, rng):
     for c in chosen:
         _sparsify(c, rng)
         imp = c['kind'] == 'imp'
-        keep = rng.random() < 0.3          # options come from earlier declare_partials; coloring leaves them
-        opt = kit.rand_opts(rng, rel=keep, small_steps=False)
-        if not keep:
-            opt = {k: v for k, v in opt.items() if k in ('method', 'form', 'step')}
         ins = [i['name'] for i in c['inputs']]
-        if rng.random() < 0.7 or len(ins) == 1:
-            wrt_pat, wrts = '*', list(ins)
+        if hist:
+            # histories: mostly relative steps kept from declare_partials (the step data depends on the point)
+            keep = rng.random() < 0.85
+            opt = kit.rand_opts(rng, method='fd' if keep else None, rel=keep, small_steps=False)
+            if keep and opt.get('step_calc') in (None, 'abs') and rng.random() < 0.85:
+                opt['step_calc'] = rng.choice(['rel', 'rel_avg', 'rel_legacy', 'rel_element'])
+                opt['minimum_step'] = rng.choice([None, None, 1e-9, 1e-6])
+            if not keep:
+                opt = {k: v for k, v in opt.items() if k in ('method', 'form', 'step')}
+            if not imp and rng.random() < 0.5:
+                # ONE colored wrt variable: with rel / rel_avg / rel_legacy the colored step is the documented one
+                wrts = [rng.choice(ins)]
+                wrt_pat = list(wrts) if len(ins) > 1 else '*'
+            elif rng.random() < 0.7 or len(ins) == 1:
+                wrt_pat, wrts = '*', list(ins)
+            else:
+                wrts = sorted(rng.sample(ins, rng.randint(1, len(ins) - 1)))
+                wrt_pat = list(wrts)
         else:
-            wrts = sorted(rng.sample(ins, rng.randint(1, len(ins) - 1)))
-            wrt_pat = list(wrts)
+            keep = rng.random() < 0.3          # options come from earlier declare_partials; coloring leaves them
+            opt = kit.rand_opts(rng, rel=keep, small_steps=False)
+            if not keep:
+                opt = {k: v for k, v in opt.items() if k in ('method', 'form', 'step')}
+            if rng.random() < 0.7 or len(ins) == 1:
+                wrt_pat, wrts = '*', list(ins)
+            else:
+                wrts = sorted(rng.sample(ins, rng.randint(1, len(ins) - 1)))
+                wrt_pat = list(wrts)
         col = {'wrt': wrt_pat, 'method': opt['method'], 'show_summary': False, 'show_sparsity': False,
                'num_full_jacs': rng.choice([1, 2, 3]), 'min_improve_pct': rng.choice([0.0, 5.0])}
         if rng.random() < 0.3:
@@ -513,8 +657,22 @@ def _decorate_colored(kit, spec, rng):
             selfb = {oo['name']: dict(opt) for oo in c['outputs']}
         if not blocks and not selfb:
             continue
+        xblocks = {}
+        if hist and len(wrts) < len(ins) and rng.random() < 0.5:
+            # other inputs of the colored component are approximated too, uncolored, mostly with the OTHER method
+            other = 'cs' if opt['method'] == 'fd' else 'fd'
+            for k in ins:
+                if k in wrts:
+                    continue
+                ofs = [o for o, t in c['terms'].items() if k in t['A'] or k in t['B']]
+                if not ofs or rng.random() < 0.3:
+                    continue
+                o2 = kit.rand_opts(rng, method=rng.choice([other, other, opt['method']]), small_steps=False)
+                for o in ofs:
+                    xblocks['%s|%s' % (o, k)] = dict(o2)
+                    c['styles']['%s|%s' % (o, k)] = o2['method']
         c['c12'] = {'blocks': blocks, 'self': selfb, 'order': sorted(blocks), 'coloring': col,
-                    'via_coloring_only': not keep, 'keep': keep}
+                    'via_coloring_only': not keep, 'keep': keep, 'xblocks': xblocks}
         if keep:
             c['c12']['predeclare'] = ['*' if wrt_pat == '*' else wrts, dict(opt)]
     chosen = [c['name'] for c in chosen if c['c12'].get('coloring')]
@@ -670,7 +828,7 @@ def run_case(case, acc):
     signal.alarm(CASE_DEADLINE)
     try:
         {'partials': _run_partials, 'colored': _run_colored, 'semitotal': _run_group,
-         'total': _run_group}[scen](case, acc)
+         'total': _run_group, 'hist-colored': _run_colored_hist, 'hist-total': _run_total_hist}[scen](case, acc)
     except HarnessSkip as e:
         acc.skip(str(e))
     except _Deadline:
@@ -815,12 +973,33 @@ def _twin(spec):
     return sp
 
 
-def _run_colored(case, acc):
+def _run_colored_hist(case, acc):
+    return _run_colored(case, acc, hist=True)
+
+
+def _check_partials_between(prob, rng_state, comps):
+    """history operation: Problem.check_partials with other fd options than the declared ones (they are used for
+    the check only and must not survive it)."""
+    r = random.Random(rng_state)
+    kw = {'method': 'fd', 'form': r.choice(['forward', 'backward', 'central']), 'step': r.choice([1e-2, 1e-5, 1e-7]),
+          'step_calc': r.choice(['abs', 'rel_avg', 'rel_element'])}
+    prob.check_partials(out_stream=None, includes=['*' + c['name'] for c in comps], **kw)
+    return kw
+
+
+def _run_colored(case, acc, hist=False):
     from omv.gen import models as G
     from omv.gen import c12_kit as kit
-    spec, rng = _gen_spec(case, max_comps=3, p_sparse=0.2, solver_mix='runonce' if case['seed'] % 3 else 'any')
-    chosen = _decorate_colored(kit, spec, rng)
+    if hist:
+        spec, rng = _gen_spec(case, max_comps=3, p_sparse=0.2, solver_mix='runonce' if case['seed'] % 4 else 'any')
+    else:
+        spec, rng = _gen_spec(case, max_comps=3, p_sparse=0.2, solver_mix='runonce' if case['seed'] % 3 else 'any')
+    chosen = _decorate_colored(kit, spec, rng, hist=hist)
     comps = [c for c in spec['comps'] if c['name'] in chosen]
+    hp, kinds = [None], ['initial']
+    if hist:
+        hp, kinds = _hist_points(spec, rng, rng.choice([3, 3, 4]))
+        _apply_points(spec, hp[0])
     rec, rec2 = Recorder(), Recorder()
     methods = sorted(set(c['c12']['coloring']['method'] for c in comps))
 
@@ -831,9 +1010,16 @@ def _run_colored(case, acc):
         if cs_step_imp and 'raises:RuntimeError@direct.py' in what:
             # the zero sparsity (fd sparsity sweep with the cs step) wipes the dr/dy block of the implicit component
             return 'colored-cs-sparsity-by-fd-with-cs-step:colored:%s' % what
+        if other_method and 'raises:UnboundLocalError@approximation_scheme.py:_init_colored_approximations' in what:
+            # the scheme of the method that owns no colored column still builds colored approximation groups
+            return 'colored-beside-other-method:%s' % what
         return 'colored:%s:%s' % (what, '+'.join(methods))
-    scen = 'colored'
+    other_method = any(o_['method'] != c['c12']['coloring']['method'] for c in comps
+                       for o_ in (c['c12'].get('xblocks') or {}).values())
     first = True
+    cells = []
+    ncolored = 0
+    later_judged = 0
     with FailureMonitor() as fmon:
         try:
             prob = G.build(spec, hook=rec, comp_factory=kit.comp_factory)
@@ -852,96 +1038,162 @@ def _run_colored(case, acc):
             return
         sysm = {c['name']: prob.model._get_subsystem(spec['path'][c['name']]) for c in comps}
         tsys = {c['name']: twin.model._get_subsystem(spec['path'][c['name']]) for c in comps}
-        states = {c['name']: _comp_state(sysm[c['name']], c) for c in comps}
-        out = []
-        mech = {c['name']: set() for c in comps}
-        ncolored = 0
-        cells = []
+        earlier = {c['name']: [] for c in comps}
+        weak = {}
+        where = 'run_linearize'
         try:
-            for rnd in (1, 2):
-                before = _snap(prob.model)
-                rec.on = True
-                prob.model.run_linearize()      # round 1 includes the dynamic sparsity/coloring computation
-                rec.on = False
-                events = rec.take()
-                first = _restore_viols(acc, _cmp_snap(acc, before, _snap(prob.model)), K,
-                                       'run_linearize%d' % rnd, case, first)
-                if rnd == 1:
-                    acc.count('obs:restore-around-dynamic-coloring')
-                    # the perturbations of round 1 include the sparsity sweep: its jacobian is kept and judged
-                    # together with the step observations of round 2 (same point, same options)
-                    jac1 = {}
+            for ip in range(len(hp)):
+                scen = 'colored' if ip == 0 else 'colored-later-point'
+                if ip > 0:
+                    where = 'set-point-and-run'
+                    for p_ in (prob, twin):
+                        _set_points(p_, spec, hp[ip])
+                        p_.run_model()
+                    if fmon.failures:
+                        break
+                    if rng.random() < 0.3:
+                        # the options of a check are used for the check only
+                        where = 'check_partials'
+                        st = rng.random()
+                        before = _snap(prob.model)
+                        for p_ in (prob, twin):
+                            _check_partials_between(p_, st, comps)
+                        acc.count('obs:hist-check_partials-between-linearizations')
+                        # (check_partials re-evaluates the residuals of the components it checks: they hold
+                        #  r(inputs, outputs) afterwards, which is not a side effect of an approximation)
+                        first = _restore_viols(acc, [b_ for b_ in _cmp_snap(acc, before, _snap(prob.model))
+                                                     if b_[0] != 'residuals'], K, 'check_partials', case, first)
+                    where = 'run_linearize'
+                states = {c['name']: _comp_state(sysm[c['name']], c) for c in comps}
+                out = []
+                mech = {c['name']: set() for c in comps}
+                for rnd in ((1, 2) if ip == 0 else (2,)):
+                    before = _snap(prob.model)
+                    rec.on = True
+                    prob.model.run_linearize()      # round 1 includes the dynamic sparsity/coloring computation
+                    rec.on = False
+                    events = rec.take()
+                    first = _restore_viols(acc, _cmp_snap(acc, before, _snap(prob.model)), K,
+                                           'run_linearize%d' % rnd, case, first)
+                    if rnd == 1:
+                        acc.count('obs:restore-around-dynamic-coloring')
+                        # the perturbations of round 1 include the sparsity sweep: its jacobian is kept and judged
+                        # together with the step observations of round 2 (same point, same options)
+                        jac1 = {}
+                        for c in comps:
+                            keys = [tuple(k_.split('|')) for k_ in c['c12']['blocks']] + \
+                                   [(o_, o_) for o_ in c['c12']['self']] + \
+                                   [tuple(k_.split('|')) for k_ in c['c12'].get('xblocks', {})]
+                            jac1[c['name']] = {k_: _dense(sysm[c['name']]._jacobian[k_]) for k_ in keys}
+                        continue
                     for c in comps:
-                        keys = [tuple(k_.split('|')) for k_ in c['c12']['blocks']] + \
-                               [(o_, o_) for o_ in c['c12']['self']]
-                        jac1[c['name']] = {k_: _dense(sysm[c['name']]._jacobian[k_]) for k_ in keys}
-                    continue
-                for c in comps:
-                    o2 = []
-                    nc, nobs, nev = _judge_comp(kit, c, sysm[c['name']], states[c['name']], events,
-                                                rec.first_lin.get(c['name']), o2, colored=True)
-                    _judge_comp(kit, c, sysm[c['name']], states[c['name']], events,
-                                rec.first_lin.get(c['name']), o2, colored=True, jac_src=jac1[c['name']],
-                                tag='(first-linearize)')
-                    # (only mechanisms confirmed by the observed perturbations are named)
-                    mech[c['name']] |= set(kp for kp, ob, _ in o2 if kp.startswith(MECHANISMS) and ob == 'step-size')
-                    out += o2
-                    if rnd == 2:
-                        cells += nc
+                        if ip > 0 and weak.get(c['name']):
+                            # the dynamic sparsity was detected where some structural entry could not be told from
+                            # zero by the declared approximation (documented: sparsity is computed numerically, once)
+                            acc.count('skip-obs:hist-sparsity-detected-at-ill-conditioned-point')
+                            continue
+                        o2 = []
+                        dg = {}
+                        nc, nobs, nev = _judge_comp(kit, c, sysm[c['name']], states[c['name']], events,
+                                                    rec.first_lin.get(c['name']), o2, colored=True,
+                                                    earlier=earlier[c['name']], diag=dg)
+                        if ip == 0 and dg.get('weak'):
+                            weak[c['name']] = True
+                        if ip == 0:
+                            _judge_comp(kit, c, sysm[c['name']], states[c['name']], events,
+                                        rec.first_lin.get(c['name']), o2, colored=True, jac_src=jac1[c['name']],
+                                        tag='(first-linearize)')
+                        # (only mechanisms confirmed by the observed perturbations are named)
+                        mech[c['name']] |= set(kp for kp, ob, _ in o2 if kp.startswith(MECHANISMS) and
+                                               ob == 'step-size')
+                        out += o2
                         info = sysm[c['name']]._coloring_info
                         ncols = sum(states[c['name']][0][k].size for k in set(
                             key.split('|')[1] for key in c['c12']['blocks'])) + \
                             sum(states[c['name']][1][o].size for o in c['c12']['self'])
                         per = 2 if kit.eff_form(list(c['c12']['blocks'].values())[0]) == 'central' else 1
-                        if info.coloring is not None:
-                            acc.count('obs:coloring-object-present')
-                            if nev < ncols * per:
+                        # (evaluations spent on uncolored approximated blocks beside the coloring: one per entry and
+                        #  point of the stencil)
+                        xw = {}
+                        for key, o_ in c['c12'].get('xblocks', {}).items():
+                            xw[key.split('|')[1]] = 2 if kit.eff_form(o_) == 'central' else 1
+                        nx = sum(states[c['name']][0][k].size * m_ for k, m_ in xw.items())
+                        used = info.coloring is not None and nev - nx < ncols * per
+                        if ip == 0:
+                            cells += nc
+                            if c['c12'].get('xblocks'):
+                                acc.count('cell:hist-colored:uncolored-approximated-blocks-beside-coloring')
+                                if set(o_['method'] for o_ in c['c12']['xblocks'].values()) != \
+                                        set([c['c12']['coloring']['method']]):
+                                    acc.count('cell:hist-colored:other-method-beside-coloring')
+                            if info.coloring is not None:
+                                acc.count('obs:coloring-object-present')
+                            if used:
                                 ncolored += 1
                                 acc.count('obs:colored-fewer-evaluations')
-            twin.model.run_linearize()
-            for c in comps:
-                x, y, r = states[c['name']]
-                ev = kit.comp_eval(c, x, y if c['kind'] == 'imp' else None)
-                allb = [(k.split('|')[0], k.split('|')[1], o) for k, o in c['c12']['blocks'].items()] + \
-                       [(o_, o_, o) for o_, o in c['c12']['self'].items()]
-                for o_, k, opts in allb:
-                    Jc = _dense(sysm[c['name']]._jacobian[o_, k])
-                    Ju = _dense(tsys[c['name']]._jacobian[o_, k])
-                    acc.count('obs:colored-vs-uncolored')
-                    xk = y[o_] if k == o_ else x[k]
-                    if kit.eff_form(opts) == 'cs':
-                        tol = np.full(Ju.shape, 2.0 * kit.cs_bound(Ju))
-                    else:
-                        h = kit.doc_step(opts, xk)
-                        f_ = ev[o_]['f']
-                        rtrue = (y[o_] + c.get('beta', 0.0) * np.sin(y[o_]) - f_) if c['kind'] == 'imp' \
-                            else (f_ - y[o_])
-                        _, _, R = kit.fd_bound(kit.eff_form(opts), h, np.zeros(Ju.shape), Ju, xk, ev[o_]['E'],
-                                               2.0 * np.abs(r[o_] - rtrue))
-                        tol = 8.0 * R
-                    d = np.abs(Jc - Ju)
-                    if Jc.shape != Ju.shape or np.any(d > tol):
-                        i, j = np.unravel_index(np.argmax(d / np.maximum(tol, 1e-300)), d.shape)
-                        kp = kit.cell_of(opts)
-                        if kit.eff_form(opts) == 'cs' and opts.get('step') and Jc.shape == Ju.shape and \
-                                Jc[i, j] == 0.0:
-                            kp = 'colored-cs-sparsity-by-fd-with-cs-step'
-                        elif 'colored-rel-step-from-single-wrt' in mech[c['name']]:
-                            kp = 'colored-rel-step-from-single-wrt'
-                        out.append((kp, 'colored-vs-uncolored',
-                                    'd %s/d %s [%d,%d]: colored %.12g uncolored %.12g diff %.3e > round-off bound '
-                                    '%.3e opts %s coloring %s' % (o_, k, i, j, Jc[i, j], Ju[i, j], d[i, j], tol[i, j],
-                                                                 opts, c['c12']['coloring'])))
+                        elif used:
+                            later_judged += 1
+                            acc.count('obs:hist-colored-later-point')
+                            o_ = list(c['c12']['blocks'].values())[0]
+                            if kinds[ip] not in ('same', 'negated'):
+                                acc.count('cell:hist-colored:%s' % kit.cell_of(o_))
+                                if o_['method'] == 'fd' and (o_.get('step_calc') or 'abs') != 'abs':
+                                    acc.count('obs:hist-colored-rel-step-at-point-of-other-magnitude')
+                                    if len(set(k.split('|')[1] for k in c['c12']['blocks'])) == 1 and \
+                                            not c['c12']['self'] and o_.get('step_calc') != 'rel_element':
+                                        acc.count('obs:hist-colored-rel-step-single-wrt')
+                twin.model.run_linearize()
+                for c in comps:
+                    if ip > 0 and weak.get(c['name']):
+                        continue
+                    x, y, r = states[c['name']]
+                    ev = kit.comp_eval(c, x, y if c['kind'] == 'imp' else None)
+                    allb = [(k.split('|')[0], k.split('|')[1], o) for k, o in c['c12']['blocks'].items()] + \
+                           [(o_, o_, o) for o_, o in c['c12']['self'].items()]
+                    for o_, k, opts in allb:
+                        Jc = _dense(sysm[c['name']]._jacobian[o_, k])
+                        Ju = _dense(tsys[c['name']]._jacobian[o_, k])
+                        acc.count('obs:colored-vs-uncolored')
+                        xk = y[o_] if k == o_ else x[k]
+                        if kit.eff_form(opts) == 'cs':
+                            tol = np.full(Ju.shape, 2.0 * kit.cs_bound(Ju))
+                        else:
+                            h = kit.doc_step(opts, xk)
+                            f_ = ev[o_]['f']
+                            rtrue = (y[o_] + c.get('beta', 0.0) * np.sin(y[o_]) - f_) if c['kind'] == 'imp' \
+                                else (f_ - y[o_])
+                            _, _, R = kit.fd_bound(kit.eff_form(opts), h, np.zeros(Ju.shape), Ju, xk, ev[o_]['E'],
+                                                   2.0 * np.abs(r[o_] - rtrue))
+                            tol = 8.0 * R
+                        d = np.abs(Jc - Ju)
+                        if Jc.shape != Ju.shape or np.any(d > tol):
+                            i, j = np.unravel_index(np.argmax(d / np.maximum(tol, 1e-300)), d.shape)
+                            kp = kit.cell_of(opts)
+                            if kit.eff_form(opts) == 'cs' and opts.get('step') and Jc.shape == Ju.shape and \
+                                    (Jc[i, j] == 0.0 or _sparsity_lost(sysm[c['name']], c)):
+                                kp = 'colored-cs-sparsity-by-fd-with-cs-step'
+                            elif 'colored-rel-step-from-earlier-point' in mech[c['name']]:
+                                kp = 'colored-rel-step-from-earlier-point'
+                            elif 'colored-rel-step-from-single-wrt' in mech[c['name']]:
+                                kp = 'colored-rel-step-from-single-wrt'
+                            out.append((kp, 'colored-vs-uncolored',
+                                        'd %s/d %s [%d,%d]: colored %.12g uncolored %.12g diff %.3e > round-off bound '
+                                        '%.3e opts %s coloring %s' % (o_, k, i, j, Jc[i, j], Ju[i, j], d[i, j], tol[i, j],
+                                                                     opts, c['c12']['coloring'])))
+                first = _report(acc, case, scen, out, first)
+                for c in comps:
+                    earlier[c['name']].append(states[c['name']][:2])
+                if ip > 0:
+                    acc.count('cell:hist:%s' % kinds[ip])
         except Exception as e:
             rec.on = False
-            _exc(acc, K, 'run_linearize', e, case, first)
+            _exc(acc, K, where, e, case, first)
             prob.cleanup()
             twin.cleanup()
             return
         failed = list(fmon.failures)
     prob.cleanup()
     twin.cleanup()
-    first = _report(acc, case, scen, out, first)
     if failed and first:
         acc.skip('solver-nonconvergence')
         return
@@ -955,11 +1207,257 @@ def _run_colored(case, acc):
         if ncolored == 0:
             acc.skip('coloring-not-used')      # min_improve_pct rejected it / nothing to gain: not a colored case
             return
-        acc.ok(fingerprint(['colored', sorted(set(c_ for c_, _, _ in cells)), sorted(c['kind'] for c in comps),
-                            [c['c12']['coloring']['wrt'] == '*' for c in comps]]),
+        if hist and later_judged == 0:
+            acc.skip('no-later-point-judged')
+            return
+        acc.ok(fingerprint(['colored-hist' if hist else 'colored', sorted(set(c_ for c_, _, _ in cells)),
+                            sorted(c['kind'] for c in comps), [c['c12']['coloring']['wrt'] == '*' for c in comps]] +
+                           ([kinds] if hist else [])),
                nontrivial=any(nl for _, nl, _ in cells),
-               sample={'seed': case['seed'], 'scenario': 'colored',
+               sample={'seed': case['seed'], 'scenario': case['scenario'], 'kinds': kinds,
                        'coloring': {c['name']: c['c12']['coloring'] for c in comps}})
+
+
+def _run_total_hist(case, acc):
+    """History of total approximations (model.approx_totals + total coloring declared on the driver, computed the
+    way the optimizer drivers do) at points of very different magnitude, next to an uncolored twin.  Judged at
+    every point: totals vs exact (bound from the step approx_totals documents for the CURRENT design point),
+    colored vs uncolored to round-off, state restoration."""
+    import io
+    import contextlib
+    from omv.gen import models as G
+    from omv.gen import c12_kit as kit
+    from omv.ref.flatmodel import FlatModel
+    spec, rng = _gen_spec(case, p_group=0.6, p_matfree=0.0, solver_mix='runonce', p_cycle=0.0, p_implicit=0.25,
+                          p_sparse=0.6, max_comps=3)
+    opts = kit.rand_opts(rng, method='fd', small_steps=False)
+    opts.pop('minimum_step', None)            # approx_totals has no minimum_step argument
+    if rng.random() < 0.75:
+        opts['step_calc'] = rng.choice(['rel', 'rel_avg', 'rel_legacy', 'rel_element'])
+    rel = (opts.get('step_calc') or 'abs') != 'abs'
+    opts['step'] = rng.choice([None, 1e-6, 1e-7, 3e-7]) if rel else rng.choice([None, 1e-4, 1e-5, 1e-6])
+    # (relative steps: |x| <= 2e3, so h stays <= ~5e-3 and the local derivative bounds of the reference hold)
+    hp, kinds = _hist_points(spec, rng, 3, max_exp=3.0)
+    _apply_points(spec, hp[0])
+    api = rng.choice(['driver', 'driver', 'problem'])
+    cell = kit.cell_of(opts)
+    form = kit.eff_form(opts)
+    scen0 = 'total-colored'
+    first = True
+    of = list(dict.fromkeys(spec['of']))
+    wrt = list(dict.fromkeys(spec['wrt']))
+
+    def K(what, msg=None):
+        return '%s:%s:%s' % (scen0, what, cell)
+    rec, rec2 = Recorder(), Recorder()
+    judged = 0
+    nonlin = False
+    used_any = False
+    earlier_p = []
+    with FailureMonitor() as fmon:
+        probs = []
+        try:
+            for colored, hook in ((True, rec), (False, rec2)):
+                p_ = G.build(spec, hook=hook, comp_factory=kit.comp_factory)
+                p_.model.approx_totals(**{k: v for k, v in opts.items() if v is not None})
+                for w in wrt:
+                    p_.model.add_design_var(G.top_name(spec, w))
+                for o in of:
+                    p_.model.add_constraint(G.top_name(spec, o), upper=1e30)
+                if colored:
+                    p_.driver.declare_coloring(show_summary=False, show_sparsity=False,
+                                               num_full_jacs=rng.choice([2, 3]), min_improve_pct=0.0)
+                p_.setup(mode='fwd')
+                p_.run_model()
+                probs.append(p_)
+            prob, twin = probs
+            with contextlib.redirect_stdout(io.StringIO()):
+                # (what ScipyOptimizeDriver / pyOptSparseDriver do before their first gradient evaluation)
+                coloring = prob.get_total_coloring(prob.driver._coloring_info, run_model=False)
+        except Exception as e:
+            _exc(acc, K, 'setup-or-coloring', e, case, first)
+            for p_ in probs:
+                p_.cleanup()
+            return
+        if fmon.failures or coloring is None:
+            for p_ in probs:
+                p_.cleanup()
+            acc.skip('solver-nonconvergence' if fmon.failures else 'coloring-not-used')
+            return
+        of_n = [G.top_name(spec, o) for o in of]
+        wrt_n = [G.top_name(spec, w) for w in wrt]
+        for ip in range(len(hp)):
+            scen = scen0 if ip == 0 else scen0 + '-later-point'
+            try:
+                if ip > 0:
+                    for p_ in probs:
+                        _set_points(p_, spec, hp[ip])
+                        p_.run_model()
+                    _apply_points(spec, hp[ip])
+                if fmon.failures:
+                    break
+                fm = FlatModel(spec)
+                p = fm.p0()
+                u, conv = fm.solve(p)
+                if not conv or fm.selfcheck(u, p) > 1e-8:
+                    acc.count('skip-point:oracle')
+                    continue
+                du_cur = np.zeros(fm.nstate)
+                worst = 0.0
+                for n in fm.state_names:
+                    got = np.asarray(prob.get_val(G.abs_name(spec, n))).ravel()
+                    ref = fm.value(n, u, p).ravel()
+                    du_cur[slice(*fm.soff[n])] = np.abs(got - ref)
+                    worst = max(worst, float(np.max(np.abs(got - ref)) / max(1.0, np.max(np.abs(ref)))))
+                if worst > 1e-7 or (fm.nstate and np.linalg.cond(fm.jac(u, p)[0]) > 1e6):
+                    acc.count('skip-point:oracle')
+                    continue
+                S, M2, M3, eu = _total_ref(kit, fm, u, p, False)
+                if ip > 0 and rng.random() < 0.3:
+                    # check_totals with its own fd options between two gradient evaluations
+                    kw = {'method': 'fd', 'form': rng.choice(['forward', 'central']), 'step': rng.choice([1e-3, 2e-7]),
+                          'step_calc': rng.choice(['abs', 'rel_avg'])}     # (never the options in force: documented error)
+                    before = _snap(prob.model)
+                    for p_ in probs:
+                        p_.check_totals(of=of_n, wrt=wrt_n, out_stream=None, **kw)
+                    acc.count('obs:hist-check_totals-between-gradients')
+                    first = _restore_viols(acc, [b_ for b_ in _cmp_snap(acc, before, _snap(prob.model))
+                                                 if b_[0] != 'residuals'], K, 'check_totals', case, first)
+                before = _snap(prob.model)
+                rec.on = rec2.on = True
+                if api == 'driver':
+                    # what every optimizer calls at each iterate (keeps its total-jacobian object between calls)
+                    Jc = prob.driver._compute_totals(of=of_n, wrt=wrt_n, return_format='flat_dict',
+                                                     driver_scaling=False)
+                    Ju = twin.driver._compute_totals(of=of_n, wrt=wrt_n, return_format='flat_dict',
+                                                     driver_scaling=False)
+                else:
+                    Jc = prob.compute_totals(of=of_n, wrt=wrt_n, return_format='flat_dict')
+                    Ju = twin.compute_totals(of=of_n, wrt=wrt_n, return_format='flat_dict')
+                acc.count('cell:total-colored:api/' + api)
+                rec.on = rec2.on = False
+                nc, nu = len(rec.take()), len(rec2.take())
+                first = _restore_viols(acc, _cmp_snap(acc, before, _snap(prob.model)), K, 'compute_totals', case,
+                                       first)
+                acc.count('obs:restore-around-colored-total-approx')
+            except Exception as e:
+                rec.on = rec2.on = False
+                _exc(acc, K, 'compute_totals', e, case, first)
+                for p_ in probs:
+                    p_.cleanup()
+                return
+            if fmon.failures:
+                break
+            used = nc < nu
+            used_any = used_any or used
+            # white box (classification only): the options the model-level approximation really uses now
+            eff = dict(prob.model._owns_approx_jac_meta)
+            declared = {k: v for k, v in opts.items() if v is not None and k != 'method'}
+            dropped = any(eff.get(k) != v for k, v in declared.items())
+            # white box (classification only): the step the colored approximation applies to EVERY column (the scheme
+            # keeps one data tuple for all colors; entry 0 of it is used)
+            h_used, now_, old_ = None, set(), set()
+            try:
+                cg = prob.model._approx_schemes['fd']._colored_approx_groups
+                h_used = float(np.abs(np.ravel(np.asarray(cg[0][0][0], dtype=float)[0])[0]))
+            except Exception:
+                pass
+            if rel and h_used is not None:
+                for w in wrt:
+                    now_ |= set(kit.doc_step(opts, p[slice(*fm.poff[w])]).tolist())
+                    for pe in earlier_p:
+                        old_ |= set(kit.doc_step(opts, pe[slice(*fm.poff[w])]).tolist())
+            like = lambda H: h_used is not None and any(abs(h_used - hc) <= 1e-9 * hc for hc in H)   # noqa: E731
+
+            def mech_of(hdoc):
+                """names a diagnosed mechanism for a block whose documented steps are hdoc, or ''."""
+                if dropped:
+                    return 'colored-total-drops-approx_totals-options'
+                if not rel or h_used is None or np.all(np.abs(hdoc - h_used) <= 1e-9 * hdoc):
+                    return ''
+                if like(now_):
+                    return 'colored-rel-step-from-single-wrt'
+                if like(old_):
+                    return 'colored-rel-step-from-earlier-point'
+                return ''
+            out = []
+            for o_ in of:
+                a, b = fm.soff[o_]
+                for w in wrt:
+                    wa, wb = fm.poff[w]
+                    D = S[a:b, wa:wb]
+                    pcol = p[wa:wb]
+                    h = kit.doc_step(opts, pcol)
+                    eu_rows = eu[a:b] + (0.5 * du_cur[a:b] if form in ('forward', 'backward') else 0.0)
+                    bound, T, R = _total_bound(kit, form, h, D, M2[a:b, wa:wb], M3[a:b, wa:wb], eu_rows, pcol)
+                    nonlin = nonlin or bool(np.any(M2[a:b, wa:wb] > 0))
+                    for tag, Jd in (('colored', Jc), ('uncolored', Ju)):
+                        J = _dense(Jd[G.top_name(spec, o_), G.top_name(spec, w)])
+                        J = J.reshape(D.shape) if J.size == D.size else J
+                        if J.shape != D.shape:
+                            out.append((cell, 'shape:' + tag, '%s|%s shape %s expected %s' % (o_, w, J.shape, D.shape)))
+                            continue
+                        err = np.abs(J - D)
+                        judged += 1
+                        if not np.all(np.isfinite(J)) or np.any(err > bound):
+                            i, j = np.unravel_index(np.argmax(np.where(np.isfinite(err), err / bound, np.inf)),
+                                                    err.shape)
+                            kp = cell
+                            if tag == 'colored' and mech_of(h):
+                                # explained by the step that was really applied?
+                                hu = np.full(h.shape, h_used) if not dropped else None
+                                if dropped or np.all(err <= _total_bound(kit, form, hu, D, M2[a:b, wa:wb],
+                                                                         M3[a:b, wa:wb], eu_rows, pcol)[0]):
+                                    kp = mech_of(h)
+                            out.append((kp, 'value:' + tag,
+                                        'd %s/d %s [%d,%d]: %s approx %.12g exact %.12g |err| %.3e > bound %.3e (trunc '
+                                        '%.2e roundoff %.2e, documented h %.3e, wrt value %.6g) declared %s in force %s' %
+                                        (o_, w, i, j, tag, J[i, j], D[i, j], err[i, j], bound[i, j], T[i, j], R[i, j],
+                                         h[j], pcol[j], opts, eff)))
+                    A_, B_ = (_dense(Jc[G.top_name(spec, o_), G.top_name(spec, w)]),
+                              _dense(Ju[G.top_name(spec, o_), G.top_name(spec, w)]))
+                    if A_.size == D.size and B_.size == D.size:
+                        acc.count('obs:total-colored-vs-uncolored')
+                        d = np.abs(A_.reshape(D.shape) - B_.reshape(D.shape))
+                        tol = 8.0 * 4.0 * R
+                        if np.any(d > tol):
+                            i, j = np.unravel_index(np.argmax(d / np.maximum(tol, 1e-300)), d.shape)
+                            out.append((mech_of(h) or cell, 'colored-vs-uncolored',
+                                        'd %s/d %s [%d,%d]: colored %.12g uncolored %.12g diff %.3e > round-off bound '
+                                        '%.3e; declared %s in force %s' %
+                                        (o_, w, i, j, A_.reshape(D.shape)[i, j], B_.reshape(D.shape)[i, j], d[i, j],
+                                         tol[i, j], opts, eff)))
+            first = _report(acc, case, scen, out, first)
+            earlier_p.append(np.array(p, copy=True))
+            if rel and used and len(wrt) == 1 and opts.get('step_calc') != 'rel_element' and ip > 0 and \
+                    kinds[ip] not in ('same', 'negated'):
+                acc.count('obs:hist-total-colored-rel-step-single-desvar')
+            if used:
+                acc.count('obs:total-colored-fewer-evaluations')
+                if ip > 0:
+                    acc.count('obs:hist-total-colored-later-point')
+                    if rel and kinds[ip] not in ('same', 'negated'):
+                        acc.count('obs:hist-total-colored-rel-step-at-point-of-other-magnitude')
+            if ip > 0:
+                acc.count('cell:hist:%s' % kinds[ip])
+        failed = list(fmon.failures)
+    for p_ in probs:
+        p_.cleanup()
+    if failed and first:
+        acc.skip('solver-nonconvergence')
+        return
+    if not first:
+        return
+    if not used_any:
+        acc.skip('coloring-not-used')
+        return
+    if judged == 0:
+        acc.skip('no-point-judged')
+        return
+    acc.count('cell:total-colored:' + cell)
+    acc.ok(fingerprint([scen0, cell, opts.get('step'), kinds, sorted(c['kind'] for c in spec['comps'])]),
+           nontrivial=nonlin,
+           sample={'seed': case['seed'], 'scenario': case['scenario'], 'opts': opts, 'kinds': kinds})
 
 
 def _cached_group_step(grp, method, abs_wrt):
